@@ -142,6 +142,23 @@ def gen_params_cond(sx, B):
                 raise Injected("fault injected before serialisation")
             return real_write(*a, **kw)
         failed = False
+        handles = []
+        real_open = gi.deferred_open
+
+        def capturing_open(*a, **kw):
+            h = real_open(*a, **kw)
+            handles.append(h)
+            return h
+
+        class WriterProxy:
+            def write(self_inner):
+                # the staged file is moved into place here: it has to be complete, i.e. closed (a still open, buffered
+                # handle loses its tail when the move crosses file systems)
+                sx.claim(all(h.closed for h in handles) and len(handles) >= 1, "the staged file is complete (closed) when it is moved into place",
+                         lambda: "%d staged handles, open: %d" % (len(handles), sum(1 for h in handles if not h.closed)))
+                return DeferredFileWriter().write()
+        wrappers["deferred_open"] = capturing_open
+        wrappers["DeferredFileWriter"] = WriterProxy
         with patched(gi, **wrappers), patched(gi.vermouth.gmx.itp, write_molecule_itp=write_itp), patched(al, tqdm=_Tqdm), patched(gen_dna, tqdm=_Tqdm):
             try:
                 gi.gen_params(name="mol", outpath=Path(d) / "out.itp", inpath=[Path(d) / "in.ff", Path(d) / "in.bib"], seq=["A:2", "B:1"], dsdna=dsdna)
